@@ -337,6 +337,10 @@ func (s *sim) outputFault(n int, kind string) string {
 	switch kind {
 	case "error":
 		s.log(event{Ev: "fault", N: n, Res: "fault:error"})
+		if s.plan.Family == "ios" && s.curLine == "enable" {
+			// what an IOS without enable secret answers on a vty line
+			return "% No password set\n"
+		}
 		return errText(s.plan.Family)
 	case "garbage":
 		s.log(event{Ev: "fault", N: n, Res: "fault:garbage"})
